@@ -162,7 +162,6 @@ macro_rules! c01_c1 {
     ($name:ident, $shape:expr) => {
         #[kani::proof]
         #[kani::stub(watto::StringTable::read, crate::verif_support::stubs::strtab_read_model)]
-#[kani::stub(watto::StringTable::read, crate::verif_support::stubs::strtab_read_model)]
         #[kani::unwind(20)]
         fn $name() {
             c01_cache_step::<1>([member_of_shape($shape)], [$shape]);
@@ -283,7 +282,6 @@ macro_rules! c02_k {
     ($name:ident, $shape:expr, $bp:expr) => {
         #[kani::proof]
         #[kani::stub(watto::StringTable::read, crate::verif_support::stubs::strtab_read_model)]
-#[kani::stub(watto::StringTable::read, crate::verif_support::stubs::strtab_read_model)]
         #[kani::unwind(20)]
         fn $name() {
             c02_kernel_diff($shape, $bp);
@@ -445,23 +443,22 @@ fn c04_cache_method<const N: usize>(names: [u8; N], symbolic_lines: bool) {
 }
 
 macro_rules! c04_c {
-    ($name:ident, $n:expr, $names:expr) => {
+    ($name:ident, $n:expr, $names:expr, $sym:expr) => {
         #[kani::proof]
         #[kani::stub(watto::StringTable::read, crate::verif_support::stubs::strtab_read_model)]
-#[kani::stub(watto::StringTable::read, crate::verif_support::stubs::strtab_read_model)]
         #[kani::stub(crate::cache::extract_class_name, extract_class_name_stub)]
         #[kani::unwind(8)]
         fn $name() {
-            c04_cache_method::<$n>($names);
+            c04_cache_method::<$n>($names, $sym);
         }
     };
 }
-c04_c!(c04_cache_f, 1, [0]);
-c04_c!(c04_cache_ff, 2, [0, 0]);
-c04_c!(c04_cache_fg, 2, [0, 1]);
-c04_c!(c04_cache_fff, 3, [0, 0, 0]);
-c04_c!(c04_cache_ffg, 3, [0, 0, 1]);
-c04_c!(c04_cache_gff, 3, [1, 0, 0]);
+c04_c!(c04_cache_f, 1, [0], true);
+c04_c!(c04_cache_ff, 2, [0, 0], false);
+c04_c!(c04_cache_fg, 2, [0, 1], true);
+c04_c!(c04_cache_fff, 3, [0, 0, 0], false);
+c04_c!(c04_cache_ffg, 3, [0, 0, 1], true);
+c04_c!(c04_cache_gff, 3, [1, 0, 0], true);
 
 /// find_range_by_binary_search returns exactly the maximal run of `Equal`
 /// elements for every comparison table consistent with a sorted slice
@@ -554,7 +551,6 @@ macro_rules! c08_cchain {
     ($name:ident, $e:expr, $c1:expr, $c2:expr) => {
         #[kani::proof]
         #[kani::stub(watto::StringTable::read, crate::verif_support::stubs::strtab_read_model)]
-#[kani::stub(watto::StringTable::read, crate::verif_support::stubs::strtab_read_model)]
         #[kani::stub(crate::cache::extract_class_name, extract_class_name_stub)]
         #[kani::unwind(4)]
         fn $name() {
